@@ -10,10 +10,10 @@ Definition addr := N.
 Definition key := N.
 
 Inductive obj :=
-(* types.FunctionType: __name__, __module__, __code__, __defaults__, __doc__, __dict__,
-   the contents of the cells of __closure__, __code__.co_freevars *)
-| OFunc (name : key) (md : option key) (code : addr) (defaults : addr) (doc : addr)
-        (fdict : addr) (closure : list addr) (freevars : list key)
+(* types.FunctionType: __name__, __module__, __code__, __defaults__, __kwdefaults__, __doc__,
+   __annotations__, __dict__, the contents of the cells of __closure__, __code__.co_freevars *)
+| OFunc (name : key) (md : option key) (code : addr) (defaults : addr) (kwdefaults : addr) (doc : addr)
+        (annotations : addr) (fdict : addr) (closure : list addr) (freevars : list key)
 (* a class: __name__, __module__, the raw entries of its own __dict__, __bases__,
    the names in its own __slots__ (None: no own __slots__) *)
 | OClass (name : key) (md : option key) (cdict : list (key * addr)) (bases : list addr)
@@ -100,7 +100,7 @@ Inductive ty :=
 
 Definition tyof (o : obj) : ty :=
   match o with
-  | OFunc _ _ _ _ _ _ _ _ => TyFunc
+  | OFunc _ _ _ _ _ _ _ _ _ _ => TyFunc
   | OClass _ _ _ _ _ => TyClass
   | ODict _ => TyDict
   | OInst c _ _ _ => TyInst c
